@@ -365,3 +365,42 @@ def assert_overlay_in_use(overlay):
         q = os.path.join(overlay, rel)
         if not os.path.exists(q) or open(p, "rb").read() != open(q, "rb").read():
             raise common.Infra(f"overlay {overlay} is stale: {rel} differs from the working tree {wsbuild.REPO}")
+
+
+def read_vcf_tolerant(path):
+    """Plain-text reader of an OUTPUT VCF for the fields C03/C05 look at (GT, PS, HP), same record shape as
+    `sim.read_vcf`.  Unlike htslib it survives the NUL bytes that `--tag HP` runs can contain (a FORMAT/HP column in
+    which every sample is missing; reported to C04/C09) — such values are read as missing.
+    Returns (samples, records, n_nul_bytes)."""
+    raw = open(path, "rb").read()
+    n_nul = raw.count(b"\x00")
+    samples, out = [], []
+    for line in raw.decode("latin-1").split("\n"):
+        if line.startswith("##") or not line:
+            continue
+        cols = line.split("\t")
+        if line.startswith("#CHROM"):
+            samples = cols[9:]
+            continue
+        keys = cols[8].split(":") if len(cols) > 8 else []
+        calls = []
+        for val in cols[9:]:
+            parts = val.split(":")
+            d = {}
+            for k, v in zip(keys, parts):
+                v = v.replace("\x00", "")
+                if k == "GT":
+                    phased = "|" in v
+                    al = tuple(None if a in (".", "") else int(a) for a in v.replace("|", "/").split("/"))
+                    d["GT"] = (al, phased)
+                elif k == "PS":
+                    d["PS"] = None if v in (".", "") else int(v)
+                elif k == "HP":
+                    d["HP"] = None if v in (".", "") else tuple(v.split(","))
+                else:
+                    d[k] = v
+            for k in keys[len(parts):]:
+                d[k] = None
+            calls.append(d)
+        out.append({"chrom": cols[0], "pos": int(cols[1]) - 1, "ref": cols[3], "alts": cols[4].split(","), "format": keys, "calls": calls})
+    return samples, out, n_nul
